@@ -5,6 +5,9 @@ From RV Require Import Gen.PuritySites Lang.PuritySites.
 Import ListNotations.
 Open Scope Z_scope.
 
+Lemma names_spelled : t_LCDGlyph = txt "LCDGlyph"%string /\ t_ensure_function_variant = txt "_ensure_function_variant"%string.
+Proof. split; vm_compute; reflexivity. Qed.
+
 Lemma lazy_sites_accounted_b : forallb lsite_accounted lazy_sites = true.
 Proof. vm_compute. reflexivity. Qed.
 
